@@ -4,7 +4,7 @@
    Closed type expressions as trees  [k, id, sub] :
        leaf  : a predeclared type, error, any, a named type of one of three packages (own / other / same-named clash),
                or an instantiation of a generic type with a basic or a named argument
-       ptr, slice, array3, chan (bidirectional), mapS (map[string]E), mapK (map[K]E with a named key),
+       ptr, slice, array3, array0 (the boundary length), chan (bidirectional), mapS (map[string]E), mapK (map[K]E with a named key),
        struct1 (one tagged field), struct2 (an embedded field and a plain field)
    The law: the rendered text, type-checked in the target package with exactly the imports registered while rendering,
    is identical to the type it was rendered from; local types unqualified, foreign ones under their import name.
